@@ -90,7 +90,7 @@ fn find_and_play_best_move(
     let time_to_move_ms = parse_go_command(commands).calculate_time_slice(board.to_move);
     let mut best_move = None;
     #[cfg(walleye_verif)]
-    crate::verif_hooks::event_go(board, time_to_move_ms);
+    crate::verif_hooks::event_go(board, time_to_move_ms, draw_table);
 
     let (tx, rx) = mpsc::channel();
     let clone = board.clone();
